@@ -31,22 +31,44 @@ ALL_STATES = [(c, s) for c in (N, Mb) for s in (False, True)]
 
 
 def find_lazy_caches(ctx):
-    """[(class, mangled field, filler Fn)]"""
+    """[(class K, mangled field, field as written, filler Fn)]: a field of an instance of K that is tested for absence
+    and filled in the same function -- by a method of K on `self`, or by any function on a parameter of static type K
+    (`if key not in jordan._memo: jordan._memo[key] = ...`)"""
     out = []
-    for cls, methods in ctx.model.methods.items():
-        for name, fn in methods.items():
-            if fn.kind not in ("method", "getter", "setter") or fn.name == "__new__" or not fn.node.args.args:
-                continue      # `if cls.__instance is None` in __new__ is the singleton pattern, not a cache
-            selfn = fn.node.args.args[0].arg
+    for q, fn in sorted(ctx.model.funcs.items()):
+        if fn.name == "__new__" or not fn.node.args.args:
+            continue      # `if cls.__instance is None` in __new__ is the singleton pattern, not a cache
+        inf = None
+        for i, a in enumerate(fn.node.args.posonlyargs + fn.node.args.args):
+            pname = a.arg
+            if i == 0 and fn.cls and fn.kind in ("method", "getter", "setter"):
+                owners = [fn.cls]
+            elif fn.kind == "class" and i == 0:
+                continue
+            else:
+                inf = inf or ctx.typer.of(fn)
+                owners = [c for c in ctx.typer.classes_of(inf.env.get(pname)) if c in ctx.model.classes]
+                if len(owners) != 1:
+                    continue
             for n in ast.walk(fn.node):
                 if isinstance(n, ast.If):
-                    f, pol = cache_test(n.test, selfn)
+                    f, pol = cache_test(n.test, pname)
                     # miss form: the fill is inside the `if`; hit form (`if self.F is not None: return self.F`): after it
                     scope = ast.walk(n) if pol == "miss" else ast.walk(fn.node)
-                    if f and any(_stores_field(b, selfn, f) and not _is_reset(b) for b in scope):
-                        mangled = f"_{cls}{f}" if f.startswith("__") and not f.endswith("__") else f
-                        out.append((cls, mangled, f, fn))
+                    if f and any(_stores_field(b, pname, f) and not _is_reset(b) for b in scope):
+                        ctx_cls = fn.cls or owners[0]
+                        mangled = f"_{ctx_cls}{f}" if f.startswith("__") and not f.endswith("__") else f
+                        out.append((owners[0], mangled, f, fn))
     return out
+
+
+def cache_param(filler, fsrc):
+    """name of the parameter of `filler` whose field `fsrc` is the cache"""
+    for a in filler.node.args.posonlyargs + filler.node.args.args:
+        for n in ast.walk(filler.node):
+            if isinstance(n, ast.If) and cache_test(n.test, a.arg)[0] == fsrc:
+                return a.arg
+    return filler.params[0] if filler.params else None
 
 
 def cache_test(test, selfn):
@@ -119,7 +141,7 @@ ISOMETRY_INVARIANT = {"jordancurve.IntegrateJordan.lenght", "jordancurve.Integra
 
 def filler_is_isometry_invariant(ctx, filler, fsrc):
     """the cached value is computed only from isometry-invariant integrals of self"""
-    selfn = filler.params[0]
+    selfn = cache_param(filler, fsrc)
     inf = ctx.typer.of(filler)
     for n in ast.walk(filler.node):
         if isinstance(n, ast.If) and cache_test(n.test, selfn)[0] == fsrc:
@@ -159,8 +181,10 @@ def is_composite(ctx, cls):
 
 
 class CacheCoherence:
-    def __init__(self, ctx, cls, field_mangled, field_src, filler=None):
+    def __init__(self, ctx, cls, field_mangled, field_src, filler=None, trusted_updates=()):
         self.ctx, self.cls, self.F, self.Fsrc = ctx, cls, field_mangled, field_src
+        self.trusted_updates = set(trusted_updates)     # methods whose incremental cache update is verified elsewhere
+        self.updates = {}
         self.exempt_isometries = bool(filler) and filler_is_isometry_invariant(ctx, filler, field_src)
         self.composite = is_composite(ctx, cls)
         self.O = ownership(ctx)
@@ -262,13 +286,24 @@ class CacheCoherence:
             if isinstance(node, ast.AugAssign) and node is st and isinstance(node.target, ast.Attribute) \
                     and node.target.attr == self.Fsrc and isinstance(node.target.value, ast.Name) \
                     and node.target.value.id == selfn:
-                states = {(Mb, False)}
+                # UPDATE: the new value is computed from the old cached value, not from the state: it is as stale as
+                # before (unless this incremental update is verified against the transformation law, see R10.1)
+                self.updates.setdefault(fn.qname, []).append(getattr(node, "lineno", 0))
+                if fn.qname in self.trusted_updates:
+                    states = {(Mb, False)}
                 continue
             if isinstance(node, ast.Assign) and node is st:
                 for t in node.targets:
                     if isinstance(t, ast.Attribute) and t.attr == self.Fsrc and isinstance(t.value, ast.Name) \
                             and t.value.id == selfn:
                         v = node.value
+                        selfref = any(isinstance(x, ast.Attribute) and x.attr == self.Fsrc and isinstance(x.value, ast.Name)
+                                      and x.value.id == selfn for x in ast.walk(v))
+                        if selfref:      # self.F = g(self.F): an UPDATE, see above
+                            self.updates.setdefault(fn.qname, []).append(getattr(node, "lineno", 0))
+                            if fn.qname in self.trusted_updates:
+                                states = {(Mb, False)}
+                            continue
                         empty = (isinstance(v, ast.Constant) and v.value is None) or (isinstance(v, ast.Dict) and not v.keys) \
                             or (isinstance(v, ast.Call) and isinstance(v.func, ast.Name) and v.func.id == "dict" and not v.args)
                         states = {(N, False)} if empty else {(Mb, False)}
@@ -377,6 +412,6 @@ def derived_fields(ctx, cls):
     return out
 
 
-def coherence(ctx, cls, field_mangled, field_src, filler=None):
-    return ctx.engine(("cache", cls, field_mangled),
-                      lambda c: CacheCoherence(c, cls, field_mangled, field_src, filler))
+def coherence(ctx, cls, field_mangled, field_src, filler=None, trusted_updates=()):
+    return ctx.engine(("cache", cls, field_mangled, tuple(sorted(trusted_updates))),
+                      lambda c: CacheCoherence(c, cls, field_mangled, field_src, filler, trusted_updates))
